@@ -66,8 +66,14 @@ def get_mask_with_key_joins(data, key_joins, subset_state, view=None):
             key_right_all = []
 
             for cid1_i, cid2_i in zip(cid1, cid2):
-                key_left_all.append(data.get_data(cid1_i, view=view).ravel())
-                key_right_all.append(other.get_data(cid2_i, view=mask_right).ravel())
+                key_left = data.get_data(cid1_i, view=view).ravel()
+                key_right = other.get_data(cid2_i, view=mask_right).ravel()
+                # The keys are compared below via their bytes, so both sides
+                # need to have the same dtype (e.g. int32 vs int64 values or
+                # strings of different widths would otherwise never match)
+                dtype = np.result_type(key_left, key_right)
+                key_left_all.append(np.asarray(key_left, dtype=dtype))
+                key_right_all.append(np.asarray(key_right, dtype=dtype))
 
             key_left_all = concatenate_arrays(*key_left_all)
             key_right_all = concatenate_arrays(*key_right_all)
